@@ -3,6 +3,9 @@ from __future__ import annotations
 from ..cp import batch, is_zero, row_writers
 from ..common import STEP_FN
 from ._tablediv import table_divisors
+import ast
+from ..model import norm, walk_no_nested, AnalysisError
+from ..rdef import flow_of, ENTRY
 
 EXPLANATION = (
     "C05.a: interprocedural constant propagation of the daily step under growing_season=False: the values reaching the "
@@ -13,7 +16,14 @@ EXPLANATION = (
     "calculate_additional_params + calendar copies, constant-folded), honouring crop-pure guards; a zero divisor makes "
     "crop outputs non-finite. C05.c (sibling agreement): the four implementations of the degree-day formula (scalar daily, "
     "vectorised season reset, two pandas versions of the crop calendar) apply, for each method 1-3, exactly the temperature "
-    "clamps of the method's definition, which keep daily degree days in [0, Tupp - Tbase]. NOT decided: canopy/root/harvest-index envelopes and monotonicity, degree-day range "
+    "clamps of the method's definition, which keep daily degree days in [0, Tupp - Tbase]. C05.d (water-table cap of the rooting depth, must-pass-through on the CFG): in root_development every "
+    "definition of the returned rooting depth other than the literal 0 reaches the return only through the comparison "
+    "`depth > water-table depth` or by leaving through the False edge of the water-table guard (presence flag, depth > 0), and "
+    "on the True branch of that comparison the depth is set to the water-table depth, floored at the crop's minimum rooting depth "
+    "and nothing else. C05.e (twin evaluations of one curve): the daily root expansion is the difference of the potential-depth curve "
+    "at today's and yesterday's development time; the two evaluations receive the same sequence of definitions (after renaming the "
+    "time variable) - in particular the restrictive-layer correction is applied to both or to neither - otherwise the difference is "
+    "negative and the roots shrink. NOT decided: canopy/harvest-index envelopes and monotonicity, root depth <= Zmax, degree-day range "
     "(numeric trajectories).")
 
 ZERO_COLS = ["dap", "gdd_cum", "z_root", "canopy_cover", "canopy_cover_ns", "biomass", "biomass_ns",
@@ -46,5 +56,168 @@ def run(chk, prog, tier):
     table_divisors(chk, prog, "C05.b")
     from ._siblings import gdd_clamp_agreement
     gdd_clamp_agreement(chk, prog, "C05.c")
+    rule_d(chk, prog)
+    rule_e(chk, prog)
     chk.assume("A-1")
     chk.exhaustive = True
+
+
+def _strip_float(e):
+    while True:
+        if isinstance(e, ast.Call) and isinstance(e.func, ast.Name) and e.func.id == "float" and len(e.args) == 1:
+            e = e.args[0]
+        elif isinstance(e, ast.BinOp) and isinstance(e.op, ast.Mult) and isinstance(e.right, ast.Constant) and e.right.value in (1, 1.0):
+            e = e.left
+        else:
+            return e
+
+
+def rule_d(chk, prog):
+    step = prog.func(STEP_FN)
+    rd = prog.find_func("root_development")
+    chk.fn(rd.key)
+    where = f"{rd.module}:{rd.qualname}"
+    calls = [c for c, t in prog.calls_in(step) if getattr(t, "key", None) == rd.key]
+    if len(calls) != 1:
+        raise AnalysisError("expected one call of root_development in the step")
+    call = calls[0]
+    P = rd.params
+    G = next((P[i] for i, a in enumerate(call.args) if isinstance(a, ast.Attribute) and a.attr == "z_gw"), None)
+    W = next((P[i] for i, a in enumerate(call.args) if isinstance(a, ast.Attribute) and a.attr == "water_table"), None)
+    C = next((P[i] for i, a in enumerate(call.args) if isinstance(a, ast.Name) and a.id == "crop"), None)
+    rets = [r for r in walk_no_nested(rd.node) if isinstance(r, ast.Return)]
+    if not (G and W and C) or len(rets) != 1 or not isinstance(rets[0].value, ast.Tuple) or not isinstance(rets[0].value.elts[0], ast.Name):
+        raise AnalysisError("root_development: water-table depth / presence formals or the returned depth not found")
+    R = rets[0].value.elts[0].id
+    flow = flow_of(rd)
+    cfg = flow.cfg
+    ret_nid = flow.stmt_node[id(rets[0])]
+    caps = [n for n in cfg.live_nodes() if n.kind == "test" and isinstance(n.ast, ast.Compare) and len(n.ast.ops) == 1
+            and ((isinstance(n.ast.ops[0], ast.Gt) and norm(n.ast.left) == R and norm(n.ast.comparators[0]) == G)
+                 or (isinstance(n.ast.ops[0], ast.Lt) and norm(n.ast.left) == G and norm(n.ast.comparators[0]) == R))]
+    construct = f"{R} > {G} (rooting depth against the water table)"
+    if not caps:
+        chk.violation("C05.d", where, construct, "the rooting depth is never compared with the water-table depth: roots grow below a present water table",
+                      loc=rd.loc())
+        return
+    guards = [n for n in cfg.live_nodes() if n.kind == "test" and any(isinstance(x, ast.Name) and x.id == W for x in ast.walk(n.ast))]
+    guards += [n for n in cfg.live_nodes() if n.kind == "test" and isinstance(n.ast, ast.Compare) and norm(n.ast.left) == G
+               and isinstance(n.ast.ops[0], ast.Gt) and isinstance(n.ast.comparators[0], ast.Constant) and n.ast.comparators[0].value == 0]
+    removed = {(g.id, False) for g in guards} | {(c.id, True) for c in caps} | {(c.id, False) for c in caps}
+    cap_true = {(c.id, True) for c in caps}
+    def allowed(e) -> bool:
+        e = _strip_float(e)
+        if isinstance(e, ast.Name) and e.id == G:
+            return True
+        if isinstance(e, ast.Attribute) and e.attr == "Zmin" and isinstance(e.value, ast.Name) and e.value.id == C:
+            return True
+        if isinstance(e, ast.Call) and isinstance(e.func, ast.Name) and e.func.id == "max" and e.args:
+            return all(allowed(a) for a in e.args) and any(isinstance(_strip_float(a), ast.Name) and _strip_float(a).id == G for a in e.args)
+        return False
+    n_defs = 0
+    for d in flow.defs_reaching(R, ret_nid):
+        if d == ENTRY:
+            # the incoming depth reaches the return only off-season paths that overwrite it; treat like any other definition
+            src, val, txt = cfg.entry, None, f"{R} (incoming)"
+        else:
+            a = cfg.nodes[d].ast
+            if not isinstance(a, ast.Assign):
+                continue
+            src, val, txt = d, a.value, norm(a)
+        n_defs += 1
+        cons = f"{txt[:90]} reaches the return"
+        if val is not None and isinstance(val, ast.Constant) and val.value == 0:
+            chk.ok("C05.d", where, cons, "no roots (literal 0)")
+            continue
+        under_cap = d != ENTRY and bool(cfg.transitive_control_deps(d) & cap_true)
+        if under_cap:
+            if allowed(val):
+                chk.ok("C05.d", where, cons, "set to the water-table depth / the minimum rooting depth on the branch where the roots were below the table")
+            else:
+                chk.violation("C05.d", where, cons, f"on the branch where the rooting depth exceeds the water-table depth it is set to `{norm(val)}`, "
+                              "which is neither the water-table depth nor the crop's minimum rooting depth: roots can stay below the water table",
+                              loc=rd.loc(a))
+            continue
+        if cfg.reachable_without_edges(ret_nid, removed, src=src):
+            chk.violation("C05.d", where, cons, f"a path from this definition to the return avoids the comparison with the water-table depth although "
+                          "a water table is present", loc=rd.loc(cfg.nodes[src].ast) if src != cfg.entry else rd.loc())
+        else:
+            chk.ok("C05.d", where, cons, "only through the water-table comparison or with no water table")
+    chk.floor("C05.d", n_defs, 3, "definitions of the returned rooting depth")
+
+
+def rule_e(chk, prog):
+    """dZr = A - B where A, B are the potential-depth curve at today's / yesterday's development time"""
+    rd = prog.find_func("root_development")
+    where = f"{rd.module}:{rd.qualname}"
+    rets = [r for r in walk_no_nested(rd.node) if isinstance(r, ast.Return)]
+    R = rets[0].value.elts[0].id
+    # the increment: R = float(<init> + D); D = A - B
+    D = None
+    for a in walk_no_nested(rd.node):
+        if isinstance(a, ast.Assign) and isinstance(a.targets[0], ast.Name) and a.targets[0].id == R:
+            v = _strip_float(a.value)
+            if isinstance(v, ast.BinOp) and isinstance(v.op, ast.Add) and isinstance(v.right, ast.Name):
+                D = v.right.id
+    diffs = [a for a in walk_no_nested(rd.node) if isinstance(a, ast.Assign) and isinstance(a.targets[0], ast.Name) and a.targets[0].id == D
+             and isinstance(a.value, ast.BinOp) and isinstance(a.value.op, ast.Sub) and isinstance(a.value.left, ast.Name) and isinstance(a.value.right, ast.Name)]
+    if D is None or not diffs:
+        raise AnalysisError("root_development: the daily expansion `<today's potential depth> - <yesterday's>` not found")
+    pairs = {(d.value.left.id, d.value.right.id) for d in diffs}
+    if len(pairs) != 1:
+        raise AnalysisError(f"root_development: several different expansion differences {pairs}")
+    A_, B_ = pairs.pop()
+    # time variables: the names compared in the curve's case split for A resp. B
+    def defs(nm):
+        out = []
+        for a in walk_no_nested(rd.node):
+            if isinstance(a, ast.Assign) and len(a.targets) == 1 and isinstance(a.targets[0], ast.Name) and a.targets[0].id == nm:
+                out.append(a)
+        return out
+    dA, dB = defs(A_), defs(B_)
+    flow = flow_of(rd)
+    cfg = flow.cfg
+    def guard_names(ds):
+        names = set()
+        for a in ds:
+            nid = flow.stmt_node.get(id(a))
+            for t, l in cfg.control_deps().get(nid, set()):
+                tn = cfg.nodes[t]
+                if tn.kind == "test":
+                    names |= {x.id for x in ast.walk(tn.ast) if isinstance(x, ast.Name)}
+        return names
+    tA = guard_names(dA) - guard_names(dB)
+    tB = guard_names(dB) - guard_names(dA)
+    tA -= {A_}
+    tB -= {B_}
+    if len(tA) != 1 or len(tB) != 1:
+        raise AnalysisError(f"root_development: cannot identify the development-time variables of the two curve evaluations ({tA}, {tB})")
+    ta, tb = tA.pop(), tB.pop()
+    class Ren(ast.NodeTransformer):
+        def __init__(s, mp): s.mp = mp
+        def visit_Name(s, n):
+            return ast.copy_location(ast.Name(id=s.mp.get(n.id, n.id), ctx=n.ctx), n)
+    import copy
+    def shape(ds, me, tv):
+        out = []
+        for a in ds:
+            nid = flow.stmt_node.get(id(a))
+            g = sorted((norm(Ren({me: "Z", tv: "t"}).visit(copy.deepcopy(cfg.nodes[t].ast))), str(l))
+                       for t, l in cfg.control_deps().get(nid, set()) if cfg.nodes[t].kind == "test")
+            out.append((norm(Ren({me: "Z", tv: "t"}).visit(copy.deepcopy(a.value))), tuple(g)))
+        return out
+    sA, sB = shape(dA, A_, ta), shape(dB, B_, tb)
+    # intermediate locals of the curve (X) are shared; definitions that merely snapshot (ZrPot = Zr) are not definitions of A
+    construct = f"{D} = {A_} - {B_}: definitions of {A_} (time {ta}) and {B_} (time {tb})"
+    onlyA = [x for x in sA if x not in sB]
+    onlyB = [x for x in sB if x not in sA]
+    if not onlyA and not onlyB:
+        chk.ok("C05.e", where, construct, f"{len(sA)} definitions each, identical after renaming")
+    else:
+        chk.violation("C05.e", where, construct,
+                      "the two evaluations of the potential-depth curve are not treated alike: "
+                      + (f"only today's depth gets {[x[0][:70] for x in onlyA]}; " if onlyA else "")
+                      + (f"only yesterday's depth gets {[x[0][:70] for x in onlyB]}; " if onlyB else "")
+                      + "their difference (the daily root expansion) can be negative and the rooting depth shrinks",
+                      loc=rd.loc(diffs[0]))
+    chk.floor("C05.e", min(len(sA), len(sB)), 4, "definitions per curve evaluation")
